@@ -12,6 +12,7 @@
 //   end | <expected `end` line of the acceptor>
 //   mon <monitor facts>                 (implementation-only observations, see props/c09.py)
 //   done <ok|deadlock|steplimit|diverged|exception> steps=<n> choices=<c,c,...>
+#include <algorithm>
 #include <atomic>
 #include <chrono>
 #include <condition_variable>
@@ -69,7 +70,7 @@ struct TaskError : std::runtime_error
   explicit TaskError(int i) : std::runtime_error("task"), id(i) {}
 };
 
-struct Sub { int id; char mode; char res; char why; int tid; long seq; };   // res: a accepted, d/s/f refused; why: reason seen in the pool state
+struct Sub { int id; char mode; char res; char why; int tid; long seq; int body; };   // res: a accepted, d/s/f refused; why: reason seen in the pool state
 struct Run
 {
   const Case* c = nullptr;
@@ -91,7 +92,10 @@ struct Run
   std::vector<std::thread*> subThreads;
   std::vector<int> subTids;
   std::string problems;               // monitor facts found while running
-  std::size_t maxThreadsSeen = 0;
+  std::size_t maxThreadsSeen = 0;   // at the harness' own yields
+  std::size_t maxThreadsSeenAll = 0; // at EVERY scheduling decision (ds::set_step_hook)
+  long samples = 0;
+  const void* hMutex = nullptr; const void* hCfg = nullptr; const void* hCond = nullptr;
   long futureEarly = 0;
 };
 
@@ -149,6 +153,15 @@ void hookPoint(const char* tag)
   vp(tag, 0);
 }
 
+// called before every scheduling decision: the pool must never have more registered workers than its maximum
+void stepHook(void*)
+{
+  if (!R || R->destroyed || !R->pool) return;
+  std::size_t w = R->pool->_threads.size();
+  if (w > R->maxThreadsSeenAll) R->maxThreadsSeenAll = w;
+  R->samples++;
+}
+
 void runBody(int id, int bodyIx);
 
 void doCall(const Act& a)
@@ -191,7 +204,7 @@ void doCall(const Act& a)
     if (res == '?') res = (why == '0') ? '!' : why;
   }
   if (res == 'a') R->nAcc++; else if (res == 'd') R->nD++; else if (res == 's') R->nS++; else if (res == 'f') R->nF++;
-  R->subs.push_back(Sub{id, a.mode, res, why, ds::self(), R->tick++});
+  R->subs.push_back(Sub{id, a.mode, res, why, ds::self(), R->tick++, a.body});
 }
 
 void runBody(int id, int bodyIx)
@@ -214,6 +227,7 @@ void runBody(int id, int bodyIx)
 
 void subMain(std::vector<Act> script)
 {
+  R->subTids.push_back(ds::self());
   for (const Act& a : script) doCall(a);
 }
 
@@ -229,6 +243,9 @@ void mainProgram(long idleMs)
                              catch (...) { R->problems += " foreign-exception-in-handler"; }
                            },
                            c.detached ? ThreadPool::ShutdownMode::DETACHED : ThreadPool::ShutdownMode::IMMEDIATE);
+  R->hMutex = R->pool->_mutex.native_handle();
+  R->hCfg = R->pool->_configMutex.native_handle();
+  R->hCond = R->pool->_condition.native_handle();
   for (const MOp& op : c.main)
   {
     vp("m", 0);
@@ -285,20 +302,13 @@ bool parseActs(const std::string& s, std::vector<Act>& out)
   return true;
 }
 
-char objClass(const ds::Event& e, std::map<int, char>& cls, int& nMutex)
+char objClass(const ds::Event& e, int iM, int iC, int iV)
 {
   if (e.obj < 0) return '-';
-  auto it = cls.find(e.obj);
-  if (it != cls.end()) return it->second;
-  char c = '?';
-  switch (e.kind)
-  {
-    case ds::LOCK: case ds::UNLOCK: case ds::TRYLOCK: case ds::REACQ: c = (nMutex == 0) ? 'm' : (nMutex == 1 ? 'c' : '?'); nMutex++; break;
-    case ds::WAIT: case ds::SIGNAL: case ds::BCAST: c = 'v'; break;
-    default: break;
-  }
-  cls[e.obj] = c;
-  return c;
+  if (e.obj == iM) return 'm';
+  if (e.obj == iC) return 'c';
+  if (e.obj == iV) return 'v';
+  return '?';
 }
 
 void runCase(const Case& c, const std::vector<std::string>& t)
@@ -319,6 +329,7 @@ void runCase(const Case& c, const std::vector<std::string>& t)
     ds::init(ch);
   }
   else ds::init(seed);
+  ds::set_step_hook(&stepHook, nullptr);
   R = new Run();          // leaked on purpose when the run dead-locks (abandoned threads still point into it)
   R->c = &c;
   g_yields = new std::vector<YieldRec>();
@@ -330,10 +341,9 @@ void runCase(const Case& c, const std::vector<std::string>& t)
 
   // ---- trace, annotated for the acceptor
   const auto& tr = ds::trace();
-  std::map<int, char> cls;
-  int nMutex = 0;
+  int iM = ds::object_index(R->hMutex), iC = ds::object_index(R->hCfg), iV = ds::object_index(R->hCond);
   std::vector<char> oc(tr.size());
-  for (std::size_t i = 0; i < tr.size(); ++i) oc[i] = objClass(tr[i], cls, nMutex);
+  for (std::size_t i = 0; i < tr.size(); ++i) oc[i] = objClass(tr[i], iM, iC, iV);
   std::size_t yi = 0;
   std::string out;
   for (std::size_t i = 0; i < tr.size(); ++i)
@@ -402,13 +412,13 @@ void runCase(const Case& c, const std::vector<std::string>& t)
   }
   // ---- monitor facts (implementation only)
   {
-    std::string s = "mon max=" + std::to_string(c.maxSize) + " maxThreadsSeen=" + std::to_string(R->maxThreadsSeen) +
+    std::string s = "mon max=" + std::to_string(c.maxSize) + " maxThreadsSeen=" + std::to_string(std::max(R->maxThreadsSeen, R->maxThreadsSeenAll)) + " samples=" + std::to_string(R->samples) +
                     " futureEarly=" + std::to_string(R->futureEarly) + " subs=";
     for (std::size_t i = 0; i < R->subs.size(); ++i)
     {
       const Sub& sb = R->subs[i];
       char b[100];
-      std::snprintf(b, sizeof b, "%s%d:%c:%c:%c:%d:%ld", i ? "," : "", sb.id, sb.mode, sb.res, sb.why, sb.tid, sb.seq);
+      std::snprintf(b, sizeof b, "%s%d:%c:%c:%c:%d:%ld:%d", i ? "," : "", sb.id, sb.mode, sb.res, sb.why, sb.tid, sb.seq, sb.body);
       s += b;
     }
     if (R->subs.empty()) s += "-";
@@ -445,6 +455,9 @@ void runCase(const Case& c, const std::vector<std::string>& t)
     s += " mlog=";
     for (std::size_t i = 0; i < R->mlog.size(); ++i) { char b[60]; std::snprintf(b, sizeof b, "%s%d@%ld", i ? "," : "", R->mlog[i], R->mlogSeq[i]); s += b; }
     if (R->mlog.empty()) s += "-";
+    s += " subtids=";
+    for (std::size_t i = 0; i < R->subTids.size(); ++i) s += (i ? "," : "") + std::to_string(R->subTids[i]);
+    if (R->subTids.empty()) s += "-";
     s += " problems=" + (R->problems.empty() ? std::string("-") : R->problems);
     out += s + "\n";
   }
